@@ -33,6 +33,6 @@ def _mk(oid, cond, pre, what):
 
 
 OBLIGATIONS = [
-    Ob("O19.1", _mk("O19.1", "report_unbuilt_bits", "0 <= nfailed <= 2 and 0 <= glob_bits < 4", "report_unbuilt's bits"), "report_unbuilt"),
+    Ob("O19.1", _mk("O19.1", "report_unbuilt_bits", "0 <= nfailed <= 2 and 0 <= glob_bits < 4 and 0 <= ndetached_failed <= 1", "report_unbuilt's bits"), "report_unbuilt"),
     Ob("O19.2", _mk("O19.2", "glob_violation_bits", "0 <= s0 < 5 and 0 <= s1 < 5 and 0 <= n <= 2", "glob violations: FAILED iff a built file matched, WARNING iff an undeclared one"), "_report_glob_violations"),
 ]
